@@ -52,14 +52,15 @@ type funcSyntax struct {
 
 // IdxEngine runs the analysis with memoised summaries.
 type IdxEngine struct {
-	P         *Prog
-	decls     map[*types.Func]*funcSyntax
-	sums      map[*types.Func]*FuncSummary
-	busy      map[*types.Func]bool
-	Iface     map[string]IfaceSummary // by method name
-	DutyArrs  map[string]bool         // accessor method names of attester.Duty that return per-validator arrays
-	DutyTypes map[string]bool         // rel-pkg.Type names of duty types
-	Strict    map[string]bool         // packages (relative path) in which an index of unknown provenance on a parameter array is a finding
+	P            *Prog
+	decls        map[*types.Func]*funcSyntax
+	sums         map[*types.Func]*FuncSummary
+	busy         map[*types.Func]bool
+	Iface        map[string]IfaceSummary // by method name
+	DutyArrs     map[string]bool         // accessor method names of attester.Duty that return per-validator arrays
+	DutyTypes    map[string]bool         // rel-pkg.Type names of duty types
+	fieldWriters map[*packages.Package]map[*types.Var]map[*ast.FuncDecl]bool
+	Strict       map[string]bool // packages (relative path) in which an index of unknown provenance on a parameter array is a finding
 }
 
 func NewIdxEngine(p *Prog) *IdxEngine {
@@ -587,6 +588,9 @@ func (a *idxAnalysis) computeVarSpace(obj types.Object) string {
 		}
 	}
 	if v, isVar := obj.(*types.Var); isVar && v.IsField() && len(inits) == 0 {
+		if a.e.fieldSetElsewhere(a.fs, v) {
+			return "" // the field is given its value in another function (a record handed over, e.g. through a channel): not known here
+		}
 		inits = append(inits, nil) // a field never set in a literal starts empty
 	}
 	if len(inits) != 1 {
@@ -655,11 +659,16 @@ func (a *idxAnalysis) computeVarSpace(obj types.Object) string {
 	if call := appends[0].Rhs[0].(*ast.CallExpr); call.Ellipsis.IsValid() || len(call.Args) != 2 {
 		return "filter(" + a.localName(obj) + ")"
 	}
+	// the loop is itself inside a loop: the slice collects the elements of every trip of the inner loop, its positions
+	// are not those of what one inner loop ranges over; the slices appended side by side still grow in lock-step
+	if a.enclosingLoop(loop) != nil {
+		return a.coAppendSpace(appends[0], obj)
+	}
 	if rs, ok := loop.(*ast.RangeStmt); ok {
 		if sp := a.spaceOf(rs.X); sp != "" {
 			return sp
 		}
-		return "coll(" + a.localName(obj) + ")"
+		return a.coAppendSpace(appends[0], obj)
 	}
 	if fs, ok := loop.(*ast.ForStmt); ok {
 		if sp := a.forLoopSpace(fs); sp != "" {
@@ -1391,4 +1400,79 @@ func (a *idxAnalysis) fieldCoAppendSpace(appends []*ast.AssignStmt, obj types.Ob
 		return own
 	}
 	return "filter(" + a.fs.key + ".fields:" + common + ")"
+}
+
+// fieldSetElsewhere: a function of the package other than the analysed one sets the field, in a literal of its struct
+// type or by assignment.
+func (e *IdxEngine) fieldSetElsewhere(fs *funcSyntax, field *types.Var) bool {
+	if e.fieldWriters == nil {
+		e.fieldWriters = map[*packages.Package]map[*types.Var]map[*ast.FuncDecl]bool{}
+	}
+	w, ok := e.fieldWriters[fs.pkg]
+	if !ok {
+		w = map[*types.Var]map[*ast.FuncDecl]bool{}
+		add := func(v *types.Var, fd *ast.FuncDecl) {
+			if w[v] == nil {
+				w[v] = map[*ast.FuncDecl]bool{}
+			}
+			w[v][fd] = true
+		}
+		info := fs.pkg.TypesInfo
+		for _, f := range fs.pkg.Syntax {
+			for _, d := range f.Decls {
+				fd, ok := d.(*ast.FuncDecl)
+				if !ok || fd.Body == nil {
+					continue
+				}
+				ast.Inspect(fd.Body, func(n ast.Node) bool {
+					switch x := n.(type) {
+					case *ast.CompositeLit:
+						tv, ok := info.Types[x]
+						if !ok {
+							return true
+						}
+						t := tv.Type
+						if pt, ok := t.Underlying().(*types.Pointer); ok {
+							t = pt.Elem()
+						}
+						st, ok := t.Underlying().(*types.Struct)
+						if !ok {
+							return true
+						}
+						for i, el := range x.Elts {
+							if kv, ok := el.(*ast.KeyValueExpr); ok {
+								if k, ok := kv.Key.(*ast.Ident); ok {
+									for j := 0; j < st.NumFields(); j++ {
+										if st.Field(j).Name() == k.Name {
+											add(st.Field(j), fd)
+										}
+									}
+								}
+							} else if i < st.NumFields() {
+								add(st.Field(i), fd)
+							}
+						}
+					case *ast.AssignStmt:
+						for _, l := range x.Lhs {
+							if se, ok := l.(*ast.SelectorExpr); ok {
+								if sel, ok := info.Selections[se]; ok && sel.Kind() == types.FieldVal {
+									if v, ok := sel.Obj().(*types.Var); ok {
+										add(v, fd)
+									}
+								}
+							}
+						}
+					}
+					return true
+				})
+			}
+		}
+		e.fieldWriters[fs.pkg] = w
+	}
+	for fd := range w[field] {
+		if fd != fs.decl {
+			return true
+		}
+	}
+	return false
 }
